@@ -2,7 +2,8 @@
 # Build every property binary once (offline).  A crate that fails to build is reported but does
 # not stop the others; ./check rebuilds incrementally anyway.
 cd /verif/harness/props || exit 2
-export CARGO_NET_OFFLINE=true RUSTFLAGS=-Awarnings
+export CARGO_NET_OFFLINE=true
+unset RUSTFLAGS
 fail=0
 for d in */; do
   d=${d%/}
